@@ -348,6 +348,17 @@ func (e *e6env) assign(s *ast.AssignStmt) (effect string) {
 			}
 			return
 		}
+		if call, isCall := unparen(s.Rhs[0]).(*ast.CallExpr); isCall {
+			// two-result call: results named by position
+			txt := e.canon(call)
+			if v.Name != "_" {
+				e.subst[e.objOf(v)] = "RES0(" + txt + ")"
+			}
+			if ok.Name != "_" {
+				e.subst[e.objOf(ok)] = "RES1(" + txt + ")"
+			}
+			return
+		}
 		e.fail("assignment %s not understood", nodeString(s))
 		return
 	}
@@ -357,8 +368,8 @@ func (e *e6env) assign(s *ast.AssignStmt) (effect string) {
 	}
 	id, _ := s.Lhs[0].(*ast.Ident)
 	if id == nil {
-		e.fail("assignment to %s not understood", types.ExprString(s.Lhs[0]))
-		return
+		// store through a pointer/field: an effect on memory, kept as text
+		return e.canon(s.Lhs[0]) + "=" + e.canon(s.Rhs[0])
 	}
 	obj := e.objOf(id)
 	if e.state[obj] {
